@@ -16,11 +16,23 @@ structure Run where
   calls : List CallRec := []
   next : Nat := 1000
   ok : Bool := true        -- an observed choice was not one the model allows
+  holds : List String := []                          -- addresses whose calls the scripted Transport holds back
+  heldCalls : List (Nat × String × String × Bool) := []  -- (caller, form, address, feedback) waiting in the Transport
 
 def feedbackForm (form : String) : Bool := form == "call" || form == "ctx" || form == "ping" || form == "stream"
 
+/-- the Transport returns: outcome by the target's health now, report to the target -/
+def finishAddr (r : Run) (k : Nat) (form : String) (a : String) (fb : Bool) : Run :=
+  let dial := !r.s.up a
+  let reports := fb && (feedbackForm form || dial)
+  let s := if reports then (step r.s (.report a dial)).getD r.s else r.s
+  { r with s := s, calls := r.calls.map fun c => if c.k == k then { c with res := some (if dial then "dial" else "nil") } else c }
+
 /-- what a caller that has an address does: hand it to the Transport, report health -/
 def callAddr (r : Run) (k : Nat) (form : String) (a : String) (fb : Bool) : Run :=
+  if r.holds.contains a && form != "ping" then
+    { r with s := { r.s with sent := r.s.sent ++ [a] }, heldCalls := r.heldCalls ++ [(k, form, a, fb)] }
+  else
   let dial := !r.s.up a
   let s := if form == "ping" then r.s else { r.s with sent := r.s.sent ++ [a] }
   let reports := fb && (feedbackForm form || dial)
@@ -99,6 +111,12 @@ def action (r : Run) (toks : List String) : Option Run :=
   | ["update", ts] => some { r with s := update r.s (splitComma ts) }
   | ["update"] => some { r with s := update r.s [] }
   | ["wait", order, pos] => some (detectionPass r (splitComma order) (pos.toNat?.getD 0))
+  | ["hold", a] => some { r with holds := r.holds ++ [a] }
+  | ["release", a] =>
+    let mine := r.heldCalls.filter (fun h => h.2.2.1 == a)
+    let r := { r with holds := r.holds.filter (· != a), heldCalls := r.heldCalls.filter (fun h => h.2.2.1 != a) }
+    some (mine.foldl (fun r h => finishAddr r h.1 h.2.1 h.2.2.1 h.2.2.2) r)
+  | ["hgo", n] => n.toNat?.map fun n => startCalls r n "go" []
   | ["park", n, form] => n.toNat?.map fun n => startCalls r n form []
   | [batch, n] | [batch, n, _] =>
     let form := if batch == "route" then "call" else if batch == "gos" then "go" else if batch == "rts" then "rt"
